@@ -19,6 +19,8 @@
   renames of a USE without ONLY never consulted, `only:` with an empty list
   not recognised by ONLY_RE, `private :: imported` ignored on re-export, a
   remote name listed twice in an only-list keeps only its last local name.
+  PUBLIC / PRIVATE / PROTECTED share one `permission` slot (the keyword met last
+  stays), so a private variable whose last keyword is PROTECTED is exported.
 -/
 import FordModel.Basic.Chars
 namespace Ford.Use
@@ -49,8 +51,11 @@ structure Decl where
   name : Str
   /-- 0 procedure, 1 abstract interface, 2 derived type, 3 variable -/
   kind : Nat
-  /-- explicit accessibility (attribute or access statement), if any -/
-  acc : Option Perm
+  /-- the access keywords (PUBLIC / PRIVATE / PROTECTED) the source gives the entity, in the order
+      FORD meets them: the attribute list of the declaration from left to right
+      (`line_to_variables`, `FortranType._initialize`), then the access / PROTECTED statements
+      naming it in source order (`attr_dict[name]`, applied by `process_attribs`) -/
+  accs : List Perm
   deriving DecidableEq, Repr
 
 /-- one entry of a rename/only list, names lower-cased -/
@@ -98,10 +103,19 @@ abbrev State := AList Tabs
 
 /-! ### `_cleanup` / `process_attribs` -/
 
+/-- `item.permission`: ONE slot for PUBLIC, PRIVATE and PROTECTED.  It starts as the default
+    accessibility of the scope (`inherited_permission`) and every access keyword overwrites it
+    (`permission = tmp_attrib_lower` in `line_to_variables`, `var.permission = attr` in
+    `process_attribs`), so the keyword met last stays: `integer, public, protected :: x` ends as
+    "protected", `integer, protected, public :: x` as "public". -/
 def declPerm (m : Scope) (d : Decl) : Perm :=
-  match d.acc with
-  | some p => p
-  | none => if m.defPub then .pub else .priv
+  d.accs.foldl (fun _ p => p) (if m.defPub then .pub else .priv)
+
+/-- the word FORD stores in the slot -/
+def Perm.word : Perm → Str
+  | .pub => ['p', 'u', 'b', 'l', 'i', 'c']
+  | .priv => ['p', 'r', 'i', 'v', 'a', 't', 'e']
+  | .prot => ['p', 'r', 'o', 't', 'e', 'c', 't', 'e', 'd']
 
 /-- `item.permission in ["public", "protected"]` -/
 def declExported (m : Scope) (d : Decl) : Bool := declPerm m d != .priv
